@@ -591,7 +591,7 @@ func c05HeaderCache(c *eng.Ctx, r *eng.Report) {
 				continue
 			}
 			m := ""
-			if f := h.Instr.(*ssa.Call).Call.StaticCallee(); f != nil {
+			if f := eng.HitCommon(h).StaticCallee(); f != nil {
 				m = f.Name()
 			}
 			if (m == "Get" || m == "Peek") && strings.HasSuffix(h.Recv, ".topBlocks") {
@@ -612,7 +612,7 @@ func c05HeaderCache(c *eng.Ctx, r *eng.Report) {
 			if h.Kind != "cache" {
 				continue
 			}
-			call := h.Instr.(*ssa.Call)
+			call := &struct{ Call ssa.CallCommon }{*eng.HitCommon(h)}
 			if f := call.Call.StaticCallee(); f != nil && (f.Name() == "Remove" || f.Name() == "Purge") {
 				if f.Name() == "Purge" || strings.Contains(strings.ToLower(eng.Desc(call.Call.Args[1])), "height") {
 					evicted[h.Recv] = true
